@@ -54,11 +54,23 @@ func c17Unit(s []byte) (string, string, []byte) {
 
 // c17Field places the quoted form in data-file fields and reads it back
 // through the real line codec.
+// c17Field places the quoted string in data-file fields; the data-file syntax
+// takes the first ',' or ':' of a line as its separator, so both are used.
 func c17Field(s []byte, q []byte) (string, string) {
+	if k, m := c17FieldSep(s, q, ","); k != "" {
+		return k, m
+	}
+	if k, m := c17FieldSep(s, q, ":"); k != "" {
+		return k + "/colon-separated", m
+	}
+	return "", ""
+}
+
+func c17FieldSep(s []byte, q []byte, sep string) (string, string) {
 	codec := new(dnsdata.Codec)
 	// TXT text field
-	line := append([]byte("'t.example.com,"), q...)
-	line = append(line, []byte(",300")...)
+	line := append([]byte("'t.example.com"+sep), q...)
+	line = append(line, []byte(sep+"300")...)
 	mr, err := codec.ConvertLn(line)
 	if err != nil {
 		return "txt-line-rejected", fmt.Sprintf("line %q: %v", line, err)
@@ -88,8 +100,8 @@ func c17Field(s []byte, q []byte) (string, string) {
 		return "txt-field-mismatch", fmt.Sprintf("TXT line %q stored %x, want %x", line, got, s)
 	}
 	// generic record rdata field
-	line = append([]byte(":g.example.com,65280,"), q...)
-	line = append(line, []byte(",301")...)
+	line = append([]byte(":g.example.com"+sep+"65280"+sep), q...)
+	line = append(line, []byte(sep+"301")...)
 	mr, err = codec.ConvertLn(line)
 	if err != nil || len(mr) != 1 {
 		return "aux-line-rejected", fmt.Sprintf("line %q: %v (%d records)", line, err, len(mr))
@@ -106,7 +118,7 @@ func c17Field(s []byte, q []byte) (string, string) {
 	// the Unicode-aware bytes.ToLower, which is not part of quoting.)
 	if len(s) >= 1 && len(s) <= 63 && !bytes.ContainsAny(s, ".") && !bytes.HasPrefix(s, []byte("*")) && isASCII(s) {
 		line = append([]byte("+"), q...)
-		line = append(line, []byte(".example.com,1.2.3.4,302")...)
+		line = append(line, []byte(".example.com"+sep+"1.2.3.4"+sep+"302")...)
 		mr, err = codec.ConvertLn(line)
 		if err != nil || len(mr) != 1 {
 			return "name-line-rejected", fmt.Sprintf("line %q: %v (%d records)", line, err, len(mr))
@@ -135,6 +147,35 @@ func c17Field(s []byte, q []byte) (string, string) {
 		}
 		if !bytes.Equal(mr2[0].Key, want) {
 			return "written-name-mismatch", fmt.Sprintf("line %q written as %q: key %x want %x", line, text, mr2[0].Key, want)
+		}
+	}
+	return "", ""
+}
+
+// c17Name: a multi-label owner name, every label quoted, in a '+' line with
+// either separator; the record key must hold exactly these labels.
+func c17Name(labels [][]byte) (string, string) {
+	var quoted [][]byte
+	want := []byte{0, 0}
+	for _, l := range labels {
+		if bytes.ContainsAny(l, ".") || !isASCII(l) {
+			return "", ""
+		}
+		quoted = append(quoted, quote.Bquote(l))
+		want = append(want, byte(len(l)))
+		want = append(want, bytes.ToLower(l)...)
+	}
+	want = append(want, []byte("\x07example\x03com\x00")...)
+	qn := bytes.Join(quoted, []byte("."))
+	for _, sep := range []string{",", ":"} {
+		line := append([]byte("+"), qn...)
+		line = append(line, []byte(".example.com"+sep+"1.2.3.4"+sep+"302")...)
+		mr, err := new(dnsdata.Codec).ConvertLn(append([]byte(nil), line...))
+		if err != nil || len(mr) != 1 {
+			return "name-line-rejected", fmt.Sprintf("line %q (%d-byte quoted name): %v (%d records)", line, len(qn), err, len(mr))
+		}
+		if !bytes.Equal(mr[0].Key, want) {
+			return "name-field-mismatch", fmt.Sprintf("line %q (%d-byte quoted name): key %x want %x", line, len(qn), mr[0].Key, want)
 		}
 	}
 	return "", ""
@@ -240,6 +281,28 @@ func TestC17(t *testing.T) {
 		}
 		kit.Case(c17Case{Hex: hex.EncodeToString(s)})
 		c17One(t, s, true)
+		// the same label as the first of several: an owner name whose quoted form is
+		// longer than the 255 octets a name can have on the wire
+		labels := [][]byte{s}
+		total := len(s) + 1
+		for i := 0; i < 3; i++ {
+			m := rapid.SampledFrom([]int{5, 20, 40, 63}).Draw(t, "lablen2")
+			if total+m+1 > 240 {
+				break
+			}
+			l := make([]byte, m)
+			for j := range l {
+				l[j] = rapid.SampledFrom(labAlpha).Draw(t, "labbyte2")
+			}
+			if l[0] == '*' {
+				l[0] = 'x'
+			}
+			labels = append(labels, l)
+			total += m + 1
+		}
+		if key, msg := c17Name(labels); key != "" {
+			kit.Fail(t, "C17", key, c17Case{Hex: hex.EncodeToString(bytes.Join(labels, []byte("."))), Stage: "multi-label name"}, "%s", msg)
+		}
 		kit.NonTrivial("label|" + string(s))
 		kit.Class(fmt.Sprintf("label-len-%s/quoted-%s", sizeClass(len(s)), sizeClass(len(quote.Bquote(s)))))
 		kit.Sample(c17Case{Hex: hex.EncodeToString(s), Quoted: string(quote.Bquote(s)), Stage: "label"})
